@@ -110,6 +110,16 @@ type statsFile struct {
 // Flush writes the shard's statistics to $VERIF_STATS_OUT (JSON) and the hash set to $VERIF_STATS_OUT.hashes (binary,
 // little endian uint64). Called from TestMain.
 func Flush() {
+	if os.Getenv("VERIF_SURVEY") != "" {
+		col.mu.Lock()
+		for k, v := range col.labels {
+			if strings.HasPrefix(k, "SURVEY:") {
+				fmt.Fprintf(os.Stderr, "SURVEY count %6d %s\n", v, k)
+			}
+		}
+		fmt.Fprintf(os.Stderr, "SURVEY evaluations %d extra %v\n", col.evaluations, col.extra)
+		col.mu.Unlock()
+	}
 	out := os.Getenv("VERIF_STATS_OUT")
 	if out == "" {
 		return
@@ -263,13 +273,16 @@ func replayPath(id string) string {
 }
 
 func writeReplay(id string, v Violation, c any) string {
+	return writeReplayTo(replayPath(id), id, v, c)
+}
+
+func writeReplayTo(p string, id string, v Violation, c any) string {
 	b, err := json.Marshal(c)
 	if err != nil {
 		b = []byte(fmt.Sprintf("%q", fmt.Sprintf("unencodable case: %v", err)))
 	}
 	rf := replayFile{Property: id, Rule: v.Rule, Message: v.Msg, Case: b}
 	out, _ := json.MarshalIndent(rf, "", " ")
-	p := replayPath(id)
 	_ = os.MkdirAll(filepath.Dir(p), 0o755)
 	_ = os.WriteFile(p, out, 0o644)
 	return p
@@ -320,6 +333,21 @@ func Run[T any](t *testing.T, s Spec[T]) {
 		}
 		record(HashOf(c, res.HashExtra), &res, sample)
 		vs := filterKnown(s.ID, res.Violations)
+		if len(vs) > 0 && os.Getenv("VERIF_SURVEY") != "" {
+			// triage aid (never used by registered commands): count violations by rule and keep going
+			col.mu.Lock()
+			col.labels["SURVEY:"+vs[0].Rule]++
+			if col.labels["SURVEY:"+vs[0].Rule] == 1 {
+				msg := vs[0].Msg
+				if len(msg) > 1500 {
+					msg = msg[:1500]
+				}
+				fmt.Fprintf(os.Stderr, "SURVEY first %s :: %s\n", vs[0].Rule, msg)
+				writeReplayTo(filepath.Join(os.TempDir(), "survey-"+strings.ReplaceAll(vs[0].Rule, "/", "_")+".json"), s.ID, vs[0], c)
+			}
+			col.mu.Unlock()
+			return
+		}
 		if len(vs) > 0 {
 			p := writeReplay(s.ID, vs[0], c)
 			rt.Fatalf("VERIF-FAIL property=%s rule=%s replay=%s :: %s", s.ID, vs[0].Rule, p, vs[0].Msg)
